@@ -664,6 +664,13 @@ func (b *bsym) binop(op token.Token, x, y interface{}, t types.Type) interface{}
 			return Mul(a, c)
 		case token.QUO:
 			return RDiv(a, c)
+		case token.EQL, token.NEQ, token.LSS, token.LEQ, token.GTR, token.GEQ:
+			// comparisons against the symbolic infinities (math.Inf): every other real is finite
+			if r, ok := infCompare(op, a, c); ok {
+				return r
+			}
+		}
+		switch op {
 		case token.EQL:
 			return simplifyBool(Eq(a, c))
 		case token.NEQ:
@@ -968,4 +975,43 @@ func (b *bsym) builtin(name string, args []interface{}, cc *ssa.CallCommon) inte
 	}
 	b.fail("bsym: builtin %s", name)
 	return nil
+}
+
+// infCompare decides comparisons in which an operand is the symbolic +Inf / -Inf.
+func infCompare(op token.Token, a, c *Term) (bool, bool) {
+	rank := func(t *Term) int {
+		switch t.Op {
+		case "f:ninf":
+			return -1
+		case "f:pinf":
+			return 1
+		}
+		return 0
+	}
+	ra, rc := rank(a), rank(c)
+	if ra == 0 && rc == 0 {
+		return false, false
+	}
+	cmp := 0
+	switch {
+	case ra < rc:
+		cmp = -1
+	case ra > rc:
+		cmp = 1
+	}
+	switch op {
+	case token.EQL:
+		return cmp == 0, true
+	case token.NEQ:
+		return cmp != 0, true
+	case token.LSS:
+		return cmp < 0, true
+	case token.LEQ:
+		return cmp <= 0, true
+	case token.GTR:
+		return cmp > 0, true
+	case token.GEQ:
+		return cmp >= 0, true
+	}
+	return false, false
 }
